@@ -29,8 +29,10 @@ func init() {
 
 var emptyRe = regexp.MustCompile(`^(.+) == ""$`)
 var nonEmptyRe = regexp.MustCompile(`^(.+) != ""$`)
-var len0Re = regexp.MustCompile(`^len\((.+)\) == 0$`)
-var lenN0Re = regexp.MustCompile(`^len\((.+)\) (!= 0|> 0)$`)
+var len0Re = regexp.MustCompile(`^len\((.+)\) (== 0|<= 0|< 1)$`)
+var lenN0Re = regexp.MustCompile(`^len\((.+)\) (!= 0|> 0|>= 1)$`)
+var lenM1NegRe = regexp.MustCompile(`^\(len\((.+)\) - 1\) < 0$`)
+var lenM1PosRe = regexp.MustCompile(`^\(len\((.+)\) - 1\) >= 0$`)
 
 // normExpr rewrites parameter names to positional form and emptiness idioms
 // to a canonical one.
@@ -41,6 +43,7 @@ func normExpr(fn *ssa.Function, gs []string) []string {
 			re := regexp.MustCompile(`\$` + regexp.QuoteMeta(p.Name()) + `\b`)
 			g = re.ReplaceAllString(g, fmt.Sprintf("$$%d", i))
 		}
+		g = canonCut(g)
 		switch {
 		case emptyRe.MatchString(g):
 			g = "empty(" + emptyRe.FindStringSubmatch(g)[1] + ")"
@@ -50,11 +53,78 @@ func normExpr(fn *ssa.Function, gs []string) []string {
 			g = "empty(" + len0Re.FindStringSubmatch(g)[1] + ")"
 		case lenN0Re.MatchString(g):
 			g = "nonempty(" + lenN0Re.FindStringSubmatch(g)[1] + ")"
+		case lenM1NegRe.MatchString(g):
+			g = "empty(" + lenM1NegRe.FindStringSubmatch(g)[1] + ")"
+		case lenM1PosRe.MatchString(g):
+			g = "nonempty(" + lenM1PosRe.FindStringSubmatch(g)[1] + ")"
 		}
 		out = append(out, g)
 	}
 	sort.Strings(out)
 	return out
+}
+
+// canonCut rewrites the results of strings.Cut(s, sep) to the equivalent
+// strings.SplitN(s, sep, 2) expressions (before = [0], after = [1], found =
+// "two parts"), so that either spelling of "split at the first separator"
+// reads the same.
+func canonCut(g string) string {
+	const head = "strings.Cut("
+	for guard := 0; guard < 20; guard++ {
+		i := strings.Index(g, head)
+		if i < 0 {
+			return g
+		}
+		// matching parenthesis and the top-level comma
+		depth, comma, end := 0, -1, -1
+		inStr := false
+		for j := i + len(head) - 1; j < len(g); j++ {
+			ch := g[j]
+			if ch == '"' && (j == 0 || g[j-1] != '\\') {
+				inStr = !inStr
+			}
+			if inStr {
+				continue
+			}
+			switch ch {
+			case '(':
+				depth++
+			case ')':
+				depth--
+				if depth == 0 {
+					end = j
+				}
+			case ',':
+				if depth == 1 && comma < 0 {
+					comma = j
+				}
+			}
+			if end >= 0 {
+				break
+			}
+		}
+		if end < 0 || comma < 0 || end+2 >= len(g)+1 || !strings.HasPrefix(g[end+1:], "#") {
+			return g
+		}
+		split := "strings.SplitN(" + g[i+len(head):comma] + "," + g[comma+1:end] + ",2)"
+		rest := g[end+3:]
+		pre := g[:i]
+		switch g[end+2] {
+		case '0':
+			g = pre + split + "[0]" + rest
+		case '1':
+			g = pre + split + "[1]" + rest
+		case '2':
+			if strings.HasSuffix(pre, "!") {
+				g = strings.TrimSuffix(pre, "!") + "len(" + split + ") != 2" + rest
+			} else {
+				g = pre + "len(" + split + ") == 2" + rest
+			}
+		default:
+			return g
+		}
+	}
+	return g
 }
 
 type exprRet struct {
@@ -124,8 +194,19 @@ func runC07(c *Ctx) {
 			msg = c.errflow(fn, calls[0])
 			// nil in -> nil out
 			for _, ret := range ir.NormalReturns(fn) {
-				for _, lv := range phiLeaves(ret.Results[0]) {
-					if lv != calls[0].Value() && ir.DefiniteNil(lv) != ir.NonNil {
+				underNil := false
+				for _, g := range c.guardsOf(fn, ret) {
+					if strings.HasPrefix(g, "nil(err:") && strings.HasSuffix(g, v.inner+")") {
+						underNil = true
+					}
+				}
+				for _, lv := range phiLeaves(ir.ReturnResult(ret, 0)) {
+					switch {
+					case lv == calls[0].Value():
+					case ir.DefiniteNil(lv) == ir.NonNil:
+					case ir.DefiniteNil(lv) == ir.IsNil && underNil:
+						// `return nil` on the branch where the inner validator returned nil
+					default:
 						ok = false
 					}
 				}
